@@ -315,7 +315,10 @@ class ParticleReleaser(Iterator[pd.DataFrame]):
         else:
             freq = -self.release_frequency
 
-        times = np.arange(file_times[0], self.stop_time, np.timedelta64(freq, "s"))
+        # The release clock starts at the first file time in simulation order,
+        # the rows of the file need not be ordered in time
+        first_time = file_times.max() if self.time_reversal else file_times.min()
+        times = np.arange(first_time, self.stop_time, np.timedelta64(freq, "s"))
         T = pd.DataFrame(times, columns=["times"])
 
         # Unexplode (explode(B) reproduces df)
